@@ -408,6 +408,134 @@ M('C09', 'partial-total-overwritten', TY, "                    total += part_len
 M('C09', 'partial-del-at-zero', TY, "                    del b[total:total + size]", "                    del b[:size]", 'C09.8')
 M('C09', 'partial-first-not-counted', TY, "                total = part_len\n                while partial:", "                total = 0\n                while partial:", 'C09.8')
 
+# --- C09: whole-function rewrites (helpers as static methods / one private reader method and a single loop) and defects inside them
+_ENC_DEF = ('    @staticmethod\n'
+    '    def encode_length(length, nhf=True, llen=1):\n'
+    '        def _new_length(nl):\n'
+    '            if 192 > nl:\n'
+    '                return Header.int_to_bytes(nl)\n'
+    '\n'
+    '            elif 8384 > nl:\n'
+    '                elen = ((nl & 0xFF00) + (192 << 8)) + ((nl & 0xFF) - 192)\n'
+    '                return Header.int_to_bytes(elen, 2)\n'
+    '\n'
+    "            return b'\\xFF' + Header.int_to_bytes(nl, 4)\n"
+    '\n'
+    '        def _old_length(nl, llen):\n'
+    "            return Header.int_to_bytes(nl, llen) if llen > 0 else b''\n"
+    '\n'
+    '        return _new_length(length) if nhf else _old_length(length, llen)\n'
+    '\n')
+_ENC_STATIC = ('    _ONE_OCTET_LIMIT = 192\n'
+    '    _TWO_OCTET_LIMIT = 8384\n'
+    '\n'
+    '    @staticmethod\n'
+    '    def _encode_new(n):\n'
+    '        if n < Header._ONE_OCTET_LIMIT:\n'
+    '            return bytes(bytearray([n]))\n'
+    '        if n < Header._TWO_OCTET_LIMIT:\n'
+    '            n -= Header._ONE_OCTET_LIMIT\n'
+    '            return bytes(bytearray([(n >> 8) + 192, n & 0xFF]))\n'
+    "        out = bytearray(b'\\xFF')\n"
+    '        out += Header.int_to_bytes(n, minlen=4)\n'
+    '        return bytes(out)\n'
+    '\n'
+    '    @staticmethod\n'
+    '    def _encode_old(n, width):\n'
+    '        if width <= 0:\n'
+    "            return b''\n"
+    '        return Header.int_to_bytes(n, width)\n'
+    '\n'
+    '    @staticmethod\n'
+    '    def encode_length(length, nhf=True, llen=1):\n'
+    '        if nhf:\n'
+    '            return Header._encode_new(length)\n'
+    '        return Header._encode_old(length, llen)\n'
+    '\n')
+_DEC_DEF = ('    @length.register(bytes)\n'
+    '    @length.register(bytearray)\n'
+    '    def length_bin(self, val):\n'
+    '        def _new_len(b):\n'
+    '            def _parse_len(a, offset=0):\n'
+    '                # returns (the parsed length, size of length field, whether the length was of partial type)\n'
+    '                fo = a[offset]\n'
+    '\n'
+    '                if 192 > fo:\n'
+    '                    return (self.bytes_to_int(a[offset:offset + 1]), 1, False)\n'
+    '\n'
+    '                elif 224 > fo:  # >= 192 is implied\n'
+    '                    dlen = self.bytes_to_int(b[offset:offset + 2])\n'
+    '                    return (((dlen - (192 << 8)) & 0xFF00) + ((dlen & 0xFF) + 192), 2, False)\n'
+    '\n'
+    '                elif 255 > fo:  # >= 224 is implied\n'
+    '                    # this is a partial-length header\n'
+    '                    return (1 << (fo & 0x1f), 1, True)\n'
+    '\n'
+    '                elif 255 == fo:\n'
+    '                    return (self.bytes_to_int(b[offset + 1:offset + 5]), 5, False)\n'
+    '\n'
+    '                else:  # pragma: no cover\n'
+    '                    raise ValueError("Malformed length: 0x{:02x}".format(fo))\n'
+    '\n'
+    '            part_len, size, partial = _parse_len(b)\n'
+    '            del b[:size]\n'
+    '\n'
+    '            if partial:\n'
+    '                total = part_len\n'
+    '                while partial:\n'
+    '                    part_len, size, partial = _parse_len(b, total)\n'
+    '                    del b[total:total + size]\n'
+    '                    total += part_len\n'
+    '                self._len = total\n'
+    '            else:\n'
+    '                self._len = part_len\n'
+    '\n'
+    '        def _old_len(b):\n'
+    '            if self.llen > 0:\n'
+    '                self._len = self.bytes_to_int(b[:self.llen])\n'
+    '                del b[:self.llen]\n'
+    '\n'
+    '            else:  # pragma: no cover\n'
+    '                self._len = 0\n'
+    '\n'
+    '        _new_len(val) if self._lenfmt == 1 else _old_len(val)\n'
+    '\n')
+_DEC_METHOD = ('    def _read_new_length_field(self, buf, at):\n'
+    '        first = buf[at]\n'
+    '        if first < 192:\n'
+    '            return first, 1, False\n'
+    '        if first < 224:\n'
+    '            return ((first - 192) << 8) + buf[at + 1] + 192, 2, False\n'
+    '        if first == 255:\n'
+    '            return self.bytes_to_int(buf[at + 1:at + 5]), 5, False\n'
+    '        return 1 << (first & 0x1F), 1, True\n'
+    '\n'
+    '    @length.register(bytes)\n'
+    '    @length.register(bytearray)\n'
+    '    def length_bin(self, val):\n'
+    '        if self._lenfmt != 1:\n'
+    '            width = self.llen\n'
+    '            self._len = self.bytes_to_int(val[:width]) if width > 0 else 0\n'
+    '            if width > 0:\n'
+    '                del val[:width]\n'
+    '            return\n'
+    '\n'
+    '        body_octets = 0\n'
+    '        more = True\n'
+    '        while more:\n'
+    '            chunk, width, more = self._read_new_length_field(val, body_octets)\n'
+    '            del val[body_octets:body_octets + width]\n'
+    '            body_octets += chunk\n'
+    '        self._len = body_octets\n'
+    '\n')
+T('C09', 'twin-enc-static-helpers', TY, _ENC_DEF, _ENC_STATIC)
+T('C09', 'twin-dec-reader-method-single-loop', TY, _DEC_DEF, _DEC_METHOD)
+T('C09', 'twin-enc-dec-rewritten', TY, _ENC_DEF, _ENC_STATIC, more=[(TY, _DEC_DEF, _DEC_METHOD)])
+M('C09', 'rewritten-dec-del-at-zero', TY, _DEC_DEF, _DEC_METHOD.replace("del val[body_octets:body_octets + width]", "del val[:width]"), 'C09.8')
+M('C09', 'rewritten-dec-224', TY, _DEC_DEF, _DEC_METHOD.replace("if first < 224:", "if first <= 224:"), 'C09.1')
+M('C09', 'rewritten-enc-limit-8383', TY, _ENC_DEF, _ENC_STATIC.replace("_TWO_OCTET_LIMIT = 8384", "_TWO_OCTET_LIMIT = 8383"), 'C09.1')
+M('C09', 'rewritten-enc-high-octet', TY, _ENC_DEF, _ENC_STATIC.replace("(n >> 8) + 192", "(n >> 8) | 128"), 'C09.1')
+
 # =============================================================================================== C20
 M('C20', 'ops-loop-forward', PGP, "            for sig in reversed(self._signatures):\n                ops = sig.make_onepass()", "            for sig in self._signatures:\n                ops = sig.make_onepass()", 'C20.2')
 M('C20', 'trailing-sigs-reversed', PGP, "                yield self._mdc\n\n            for sig in self._signatures:\n                yield sig", "                yield self._mdc\n\n            for sig in reversed(self._signatures):\n                yield sig", 'C20.2')
